@@ -100,5 +100,8 @@ func newRealNetlink(sock *simSocket, pid uint32, buf []byte) *libaudit.NetlinkCl
 	return libaudit.NewVerifNetlinkClient(sock, pid, buf, nil)
 }
 
+// setRealSeq fast-forwards the client's sequence counter.
+func setRealSeq(c *libaudit.NetlinkClient, seq uint32) { libaudit.VerifSetSequence(c, seq) }
+
 // resetCoalesceGlobals gives every run fresh package-level ID caches.
 func resetCoalesceGlobals() { aucoalesce.VerifResetCaches() }
